@@ -774,167 +774,158 @@ def afterKeyword (kw : List Char) (toks : List Token) : Option (List Token) :=
     | _ => none
   | _ => none
 
+abbrev TermRes := Option (Term Name × Interner × List Token)
+abbrev TermsRes := Option (List (Term Name) × Interner × List Token)
+
+/-- `constant`: `"(" _* "con" _+ con:(…) _* ")"` -/
+def altConst (fuel : Nat) (st : Interner) (toks : List Token) : TermRes :=
+  match afterKeyword (kwTermP .con) toks with
+  | some r =>
+    match reqWs r with
+    | some r1 =>
+      match parseConst fuel r1 with
+      | some (c, r2) =>
+        match skipWs r2 with
+        | .rpar :: r3 => some (.const c, st, r3)
+        | _ => none
+      | none => none
+    | none => none
+  | none => none
+
+/-- `builtin`: `"(" _* "builtin" _+ b:ident() _* ")"` (with the fix: an unknown name is a parse error) -/
+def altBuiltin (st : Interner) (toks : List Token) : TermRes :=
+  match afterKeyword (kwTermP .builtin) toks with
+  | some r =>
+    match reqWs r with
+    | some (.word w :: r1) =>
+      if isIdent w then
+        match skipWs r1 with
+        | .rpar :: r2 => (builtinOfWord w).map (fun b => (.builtin b, st, r2))
+        | _ => none
+      else none
+    | _ => none
+  | none => none
+
+/-- `var`: `n:name(interner)` -/
+def altVar (st : Interner) (toks : List Token) : TermRes :=
+  match toks with
+  | .word w :: r =>
+    if isIdent w then some (.var (mkName w (intern w st).1), (intern w st).2, r) else none
+  | _ => none
+
+/-- `lambda`: `"(" _* "lam" _+ name _+ term _* ")"` -/
+def altLam (rec : Interner → List Token → TermRes) (st : Interner) (toks : List Token) : TermRes :=
+  match afterKeyword (kwTermP .lam) toks with
+  | some r =>
+    match reqWs r with
+    | some (.word w :: r1) =>
+      if isIdent w then
+        match reqWs r1 with
+        | some r2 =>
+          match rec (intern w st).2 r2 with
+          | some (b, st', r3) =>
+            match skipWs r3 with
+            | .rpar :: r4 => some (.lam (mkName w (intern w st).1) b, st', r4)
+            | _ => none
+          | none => none
+        | none => none
+      else none
+    | _ => none
+  | none => none
+
+/-- `apply`: `"[" _* initial:term _+ terms:(t:term _* { t })+ "]"` -/
+def altApply (rec : Interner → List Token → TermRes) (recs : Interner → List Token → TermsRes)
+    (st : Interner) (toks : List Token) : TermRes :=
+  match toks with
+  | .lbrack :: r =>
+    match rec st (skipWs r) with
+    | some (f, st1, r1) =>
+      match reqWs r1 with
+      | some r2 =>
+        match recs st1 r2 with
+        | some (a :: as, st2, .rbrack :: r3) => some (applyAll f (a :: as), st2, r3)
+        | _ => none
+      | none => none
+    | none => none
+  | _ => none
+
+/-- `delay` / `force`: `"(" _* kw _* term _* ")"` -/
+def altUnary (k : TermKind) (mk : Term Name → Term Name) (rec : Interner → List Token → TermRes)
+    (st : Interner) (toks : List Token) : TermRes :=
+  match afterKeyword (kwTermP k) toks with
+  | some r =>
+    match rec st (skipWs r) with
+    | some (t, st1, r1) =>
+      match skipWs r1 with
+      | .rpar :: r2 => some (mk t, st1, r2)
+      | _ => none
+    | none => none
+  | none => none
+
+/-- `error`: `"(" _* "error" _* ")"` -/
+def altError (st : Interner) (toks : List Token) : TermRes :=
+  match afterKeyword (kwTermP .error) toks with
+  | some r =>
+    match skipWs r with
+    | .rpar :: r1 => some (.error, st, r1)
+    | _ => none
+  | none => none
+
+/-- `constr`: `"(" _* "constr" _+ tag:decimal() _* fields:(t:term _* { t })* _* ")"` -/
+def altConstr (recs : Interner → List Token → TermsRes) (st : Interner) (toks : List Token) : TermRes :=
+  match afterKeyword (kwTermP .constr) toks with
+  | some r =>
+    match reqWs r with
+    | some (.word tg :: r1) =>
+      match parseDecimal tg with
+      | some tag =>
+        match recs st (skipWs r1) with
+        | some (fs, st1, .rpar :: r2) => some (.constr tag fs, st1, r2)
+        | _ => none
+      | none => none
+    | _ => none
+  | none => none
+
+/-- `case`: `"(" _* "case" _+ constr:term _* branches:(t:term _* { t })* _* ")"` -/
+def altCase (rec : Interner → List Token → TermRes) (recs : Interner → List Token → TermsRes)
+    (st : Interner) (toks : List Token) : TermRes :=
+  match afterKeyword (kwTermP .case) toks with
+  | some r =>
+    match reqWs r with
+    | some r1 =>
+      match rec st r1 with
+      | some (s, st1, r2) =>
+        match recs st1 (skipWs r2) with
+        | some (bs, st2, .rpar :: r3) => some (.case s bs, st2, r3)
+        | _ => none
+      | none => none
+    | none => none
+  | none => none
+
+/-- ordered choice -/
+def orElse {α} (a b : Option α) : Option α :=
+  match a with
+  | some x => some x
+  | none => b
+
 mutual
-  /-- rule `term`, ordered choice.  Result: term, interner state, rest. -/
-  def parseTerm : Nat → Interner → List Token → Option (Term Name × Interner × List Token)
+  /-- rule `term`: `constant / builtin / var / lambda / apply / delay / force / error / constr / case`.
+  Result: term, interner state, rest. -/
+  def parseTerm : Nat → Interner → List Token → TermRes
     | 0, _, _ => none
     | fuel + 1, st, toks =>
-      -- constant
-      let alt : Option (Term Name × Interner × List Token) :=
-        match afterKeyword (kwTermP .con) toks with
-        | some r =>
-          match reqWs r with
-          | some r1 =>
-            match parseConst fuel r1 with
-            | some (c, r2) =>
-              match skipWs r2 with
-              | .rpar :: r3 => some (.const c, st, r3)
-              | _ => none
-            | none => none
-          | none => none
-        | none => none
-      match alt with
-      | some res => some res
-      | none =>
-      -- builtin  (with the fix: an unknown name is a parse error)
-      let alt : Option (Term Name × Interner × List Token) :=
-        match afterKeyword (kwTermP .builtin) toks with
-        | some r =>
-          match reqWs r with
-          | some (.word w :: r1) =>
-            if isIdent w then
-              match skipWs r1 with
-              | .rpar :: r2 => (builtinOfWord w).map (fun b => (.builtin b, st, r2))
-              | _ => none
-            else none
-          | _ => none
-        | none => none
-      match alt with
-      | some res => some res
-      | none =>
-      -- var
-      let alt : Option (Term Name × Interner × List Token) :=
-        match toks with
-        | .word w :: r =>
-          if isIdent w then
-            let (u, st') := intern w st
-            some (.var (mkName w u), st', r)
-          else none
-        | _ => none
-      match alt with
-      | some res => some res
-      | none =>
-      -- lambda
-      let alt : Option (Term Name × Interner × List Token) :=
-        match afterKeyword (kwTermP .lam) toks with
-        | some r =>
-          match reqWs r with
-          | some (.word w :: r1) =>
-            if isIdent w then
-              let (u, st') := intern w st
-              match reqWs r1 with
-              | some r2 =>
-                match parseTerm fuel st' r2 with
-                | some (b, st'', r3) =>
-                  match skipWs r3 with
-                  | .rpar :: r4 => some (.lam (mkName w u) b, st'', r4)
-                  | _ => none
-                | none => none
-              | none => none
-            else none
-          | _ => none
-        | none => none
-      match alt with
-      | some res => some res
-      | none =>
-      -- apply: `"[" _* initial:term _+ terms:(t:term _* { t })+ "]"`
-      let alt : Option (Term Name × Interner × List Token) :=
-        match toks with
-        | .lbrack :: r =>
-          match parseTerm fuel st (skipWs r) with
-          | some (f, st1, r1) =>
-            match reqWs r1 with
-            | some r2 =>
-              match parseTerms fuel st1 r2 with
-              | some (a :: as, st2, .rbrack :: r3) => some (applyAll f (a :: as), st2, r3)
-              | _ => none
-            | none => none
-          | none => none
-        | _ => none
-      match alt with
-      | some res => some res
-      | none =>
-      -- delay: `"(" _* "delay" _* term _* ")"`
-      let alt : Option (Term Name × Interner × List Token) :=
-        match afterKeyword (kwTermP .delay) toks with
-        | some r =>
-          match parseTerm fuel st (skipWs r) with
-          | some (t, st1, r1) =>
-            match skipWs r1 with
-            | .rpar :: r2 => some (.delay t, st1, r2)
-            | _ => none
-          | none => none
-        | none => none
-      match alt with
-      | some res => some res
-      | none =>
-      -- force
-      let alt : Option (Term Name × Interner × List Token) :=
-        match afterKeyword (kwTermP .force) toks with
-        | some r =>
-          match parseTerm fuel st (skipWs r) with
-          | some (t, st1, r1) =>
-            match skipWs r1 with
-            | .rpar :: r2 => some (.force t, st1, r2)
-            | _ => none
-          | none => none
-        | none => none
-      match alt with
-      | some res => some res
-      | none =>
-      -- error
-      let alt : Option (Term Name × Interner × List Token) :=
-        match afterKeyword (kwTermP .error) toks with
-        | some r =>
-          match skipWs r with
-          | .rpar :: r1 => some (.error, st, r1)
-          | _ => none
-        | none => none
-      match alt with
-      | some res => some res
-      | none =>
-      -- constr: `"(" _* "constr" _+ tag:decimal() _* fields:(t:term _* { t })* _* ")"`
-      let alt : Option (Term Name × Interner × List Token) :=
-        match afterKeyword (kwTermP .constr) toks with
-        | some r =>
-          match reqWs r with
-          | some (.word tg :: r1) =>
-            match parseDecimal tg with
-            | some tag =>
-              match parseTerms fuel st (skipWs r1) with
-              | some (fs, st1, .rpar :: r2) => some (.constr tag fs, st1, r2)
-              | _ => none
-            | none => none
-          | _ => none
-        | none => none
-      match alt with
-      | some res => some res
-      | none =>
-      -- case: `"(" _* "case" _+ constr:term _* branches:(t:term _* { t })* _* ")"`
-      match afterKeyword (kwTermP .case) toks with
-      | some r =>
-        match reqWs r with
-        | some r1 =>
-          match parseTerm fuel st r1 with
-          | some (s, st1, r2) =>
-            match parseTerms fuel st1 (skipWs r2) with
-            | some (bs, st2, .rpar :: r3) => some (.case s bs, st2, r3)
-            | _ => none
-          | none => none
-        | none => none
-      | none => none
+      orElse (altConst fuel st toks) <|
+      orElse (altBuiltin st toks) <|
+      orElse (altVar st toks) <|
+      orElse (altLam (parseTerm fuel) st toks) <|
+      orElse (altApply (parseTerm fuel) (parseTerms fuel) st toks) <|
+      orElse (altUnary .delay .delay (parseTerm fuel) st toks) <|
+      orElse (altUnary .force .force (parseTerm fuel) st toks) <|
+      orElse (altError st toks) <|
+      orElse (altConstr (parseTerms fuel) st toks) <|
+      altCase (parseTerm fuel) (parseTerms fuel) st toks
   /-- `(t:term _* { t })*` — never fails; the rest has its leading white space skipped -/
-  def parseTerms : Nat → Interner → List Token → Option (List (Term Name) × Interner × List Token)
+  def parseTerms : Nat → Interner → List Token → TermsRes
     | 0, _, _ => none
     | fuel + 1, st, toks =>
       match parseTerm fuel st toks with
